@@ -24,6 +24,12 @@ type Mutant struct {
 	ExpectRule string `json:"expect_rule"`
 	ExpectKey  string `json:"expect_key,omitempty"` // substring of the reported key
 	Why        string `json:"why,omitempty"`
+	// More: further edits to the same file, applied after the first one
+	// (each fragment must be unique in the file).
+	More []struct {
+		Old string `json:"old"`
+		New string `json:"new"`
+	} `json:"more,omitempty"`
 }
 
 // SelfTestResult is the outcome of one mutant.
@@ -134,6 +140,13 @@ func runMutant(exe, prop, repo string, m Mutant) SelfTestResult {
 		}
 	}
 	mut := src[:at] + m.New + src[at+len(m.Old):]
+	for _, e := range m.More {
+		if strings.Count(mut, e.Old) != 1 {
+			r.Status, r.Detail = "skipped", "additional fragment not unique in the current tree"
+			return r
+		}
+		mut = strings.Replace(mut, e.Old, e.New, 1)
+	}
 	ov, _ := json.Marshal(map[string]string{path: mut})
 	tmp, err := os.CreateTemp("", "pintsa-overlay-*.json")
 	if err != nil {
